@@ -277,8 +277,11 @@ def match_known(pid, cex, known):
             env = dict(cex.get("facts") or {})
             env.update({"vals": cex.get("vals") or {}, "facts": cex.get("facts") or {}, "args": cex.get("args")})
             try:
-                if not eval(when, {"__builtins__": {"any": any, "all": all, "len": len, "str": str, "int": int, "abs": abs,
-                                                    "isinstance": isinstance, "float": float, "set": set, "sorted": sorted}}, env):
+                g = {"__builtins__": {"any": any, "all": all, "len": len, "str": str, "int": int, "abs": abs, "range": range,
+                                      "isinstance": isinstance, "float": float, "set": set, "sorted": sorted,
+                                      "min": min, "max": max, "sum": sum, "bool": bool, "list": list, "tuple": tuple}}
+                g.update(env)  # as globals: comprehensions inside the predicate must see them
+                if not eval(when, g):
                     continue
             except Exception:  # noqa: BLE001 - a predicate that cannot be evaluated does not match
                 continue
